@@ -137,6 +137,9 @@ def run(ctx):
             writers += 1
             term = og.of_rvalue(st["rv"])
             ok = fid == WCF and term.k == "agg" and term.a[0].endswith("Option::Some") and any(x.k == "param" and x.a[0] == 2 for x in A.walk(term))
+            # clearing the field (:= None) takes a filter away, never installs one: allowed anywhere
+            if term.k == "agg" and term.a[0].endswith("Option::None"):
+                ok = True
             ctx.ob("R-C18.2", fn, "assigns-factory-field", ok, "compaction_filter_factory := %s in %s" % (A.tstr(term)[:60], fid) + ("" if ok else " — only with_compaction_filter_factory may set it (to Some(its parameter))"), fn.loc(b))
         for b, blk in enumerate(fn.blocks):
             if blk["cleanup"]:
@@ -224,3 +227,18 @@ def run(ctx):
     # CURRENT tables (get_highest_persisted_seqno) drops when the filter removes the newest persisted item.
     from . import C04
     C04.replay_guard(ctx, "R-C18.3", kinds=("items",), monotone=True)
+
+
+    # ---- R-C18.4 the assigner is the only source of a NEW keyspace's filter: whatever factory the caller's options carry (create
+    # options are Clone, a keyspace's options are readable) is dropped before the assigner's answer is installed
+    kf4 = ctx.fn("db::Database::keyspace", "R-C18.4")
+    if kf4:
+        og4 = ctx.og(kf4)
+        cn4 = R.call_blocks(kf4, ("keyspace::Keyspace::create_new",))
+        clears = [b for b, i, st in A.field_assigns(kf4, "compaction_filter_factory", "CreateOptions")
+                  if og4.of_rvalue(st["rv"]).k == "agg" and og4.of_rvalue(st["rv"]).a[0].endswith("Option::None")]
+        wcf4 = R.call_blocks(kf4, (WCF,))
+        ok4 = bool(cn4) and bool(clears) and all(A.dominates(kf4, c, cn4[0]) for c in clears[:1]) and all(A.dominates(kf4, clears[0], w) for w in wcf4)
+        ctx.ob("R-C18.4", kf4, "callers-factory-is-dropped-before-the-assigners-answer", ok4,
+               "the options' own factory is cleared before the assigner's answer (if any) is installed" if ok4
+               else "a factory already inside the caller's options survives when the assigner returns None for the name: options cloned from a filtered keyspace put that keyspace's filter in effect for a keyspace it was not assigned to")
